@@ -8,5 +8,5 @@ for c in "$@"; do
   out=$(VERIF_SEED=${VERIF_SEED:-0} ./check $c quick 2>&1); rc=$?
   echo "seeded-$ID check $c rc=$rc $(echo "$out" | grep -m1 'signature:' | sed 's/^ *//') | $(echo "$out" | tail -1 | cut -c1-120)"
 done
-git -C /repo checkout -- .
+git -C /repo checkout -- .; git -C /repo clean -fdq src/ tests/ examples/ 2>/dev/null
 git -C /verif checkout -- evidence 2>/dev/null; git -C /verif clean -fdq replays/ 2>/dev/null
